@@ -175,7 +175,7 @@ def paren_items(text: str, ident_quote='"', backslash=False):
     return None
 
 
-PREDICATE_CLAUSES = {"WHERE", "PREWHERE", "HAVING", "ON", "GROUP BY", "ORDER BY", "VALUES"}
+PREDICATE_CLAUSES = {"WHERE", "PREWHERE", "HAVING", "ON", "GROUP BY", "ORDER BY", "VALUES", "ON CONFLICT", "DISTINCT ON"}
 _FRAME_CLAUSES = [(ph.split(), nm) for ph, nm in CLAUSES] + [(["ON"], "ON"), (["USING"], "USING"), (["UNION"], "SETOP"),
                                                               (["INTERSECT"], "SETOP"), (["EXCEPT"], "SETOP"),
                                                               (["MINUS"], "SETOP"), (["OVER"], None)]
@@ -198,7 +198,11 @@ def predicate_juxtapositions(sql: str, ident_quote='"', backslash=False):
         if k == "lp":
             nxt = toks[i + 1] if i + 1 < n else None
             is_sel = nxt is not None and nxt[0] == "word" and nxt[1].upper() in ("SELECT", "WITH")
-            frames.append({"clause": None if is_sel else fr["clause"], "select": is_sel})
+            clause = None if is_sel else fr["clause"]
+            if i >= 2 and toks[i - 1][0] == "word" and toks[i - 1][1].upper() == "ON" \
+                    and toks[i - 2][0] == "word" and toks[i - 2][1].upper() == "DISTINCT":
+                clause = "DISTINCT ON"  # PostgreSQL's DISTINCT ON(<expressions>): a list of expressions, no aliases
+            frames.append({"clause": clause, "select": is_sel})
             i += 1
             continue
         if k == "rp":
@@ -225,4 +229,17 @@ def predicate_juxtapositions(sql: str, ident_quote='"', backslash=False):
             if pd == d and pk in ("id", "str", "num") or (pk == "rp" and pd == d):
                 out.append((fr["clause"], sql[max(0, pa - 30):b + 10]))
         i += 1
+    return out
+
+
+def comment_markers(sql: str, ident_quote='"', backslash=False):
+    """Places outside literals and quoted identifiers where the text contains a comment opener (`--` or `/*`): the
+    library never writes comments, so one of these is an accident of juxtaposition (x - -1 rendered as x--1) that makes
+    the engine ignore the rest of the line."""
+    toks = tokens(sql, ident_quote, backslash)
+    out = []
+    for i in range(len(toks) - 1):
+        a, b = toks[i], toks[i + 1]
+        if a[0] == "op" and b[0] == "op" and a[4] == b[3] and (a[1], b[1]) in (("-", "-"), ("/", "*")):
+            out.append(sql[max(0, a[3] - 20):b[4] + 12])
     return out
